@@ -65,3 +65,17 @@ func VerifCalculateBlankOutputs(feeReserve uint64) int {
 func (w *Wallet) VerifSplitWalletTarget(amountToSplit uint64, mint string) []uint64 {
 	return w.splitWalletTarget(amountToSplit, mint)
 }
+
+// VerifNewWallet builds a Wallet value around an existing store and a single mint description
+// (active keyset id/fee, inactive keysets' fees) without contacting a mint.
+func VerifNewWallet(db storage.WalletDB, mintURL string, activeId string, activePpk uint, inactive map[string]uint) *Wallet {
+	m := verifMint(activeId, activePpk, inactive)
+	m.mintURL = mintURL
+	return &Wallet{db: db, unit: cashu.Sat, defaultMint: mintURL, mints: map[string]walletMint{mintURL: *m}}
+}
+
+// VerifSelectProofsForAmount exposes selectProofsForAmount.
+func (w *Wallet) VerifSelectProofsForAmount(amount uint64, mintURL string, includeFees bool) (cashu.Proofs, error) {
+	m := w.mints[mintURL]
+	return w.selectProofsForAmount(amount, &m, includeFees)
+}
